@@ -9,6 +9,7 @@ import (
 	"sort"
 	"strings"
 	"sync"
+	"sync/atomic"
 )
 
 // TwoSenders: two goroutines send on one unbuffered channel; the receiver sees either order.
@@ -422,4 +423,90 @@ func ErrFirst(fail bool) string {
 		}
 	}
 	return "ok"
+}
+
+// ---- shared memory: package-level variables written after init, and sync/atomic ----
+
+var lazyTable []int // lazily built, unsynchronised (a memoisation race)
+var lazyCount int
+
+func buildLazy() []int {
+	if lazyTable != nil {
+		return lazyTable
+	}
+	lazyTable = make([]int, 2)
+	lazyTable[0] = 1
+	lazyTable[1] = 2
+	return lazyTable
+}
+
+// LazyGlobal: two goroutines use an unsynchronised lazily built table; a reader can see it half built.
+// Also checks that shared variables are reset between executions (otherwise only the first sees it cold).
+func LazyGlobal() string {
+	res := make(chan int, 2)
+	for i := 0; i < 2; i++ {
+		go func() {
+			t := buildLazy()
+			res <- t[0] + t[1]
+		}()
+	}
+	a, b := <-res, <-res
+	if a > b {
+		a, b = b, a
+	}
+	return fmt.Sprint(a, b)
+}
+
+// GlobalCounter: unsynchronised read-modify-write of a package-level counter (lost update).
+func GlobalCounter() string {
+	var wg sync.WaitGroup
+	for i := 0; i < 2; i++ {
+		wg.Add(1)
+		go func() {
+			defer wg.Done()
+			v := lazyCount
+			lazyCount = v + 1
+		}()
+	}
+	wg.Wait()
+	return fmt.Sprint(lazyCount)
+}
+
+var casFlag int32
+var casTable [2]int
+
+// CASBeforeBuild: the winner of a compare-and-swap builds the table after flipping the flag; losers
+// return the table at once and can see it empty or half built.
+func CASBeforeBuild() string {
+	res := make(chan int, 2)
+	for i := 0; i < 2; i++ {
+		go func() {
+			if atomic.CompareAndSwapInt32(&casFlag, 0, 1) {
+				casTable[0] = 1
+				casTable[1] = 2
+			}
+			res <- casTable[0] + casTable[1]
+		}()
+	}
+	a, b := <-res, <-res
+	if a > b {
+		a, b = b, a
+	}
+	return fmt.Sprint(a, b)
+}
+
+// AtomicCounter: atomic increments never lose an update; a load may see 0, 1 or 2 of them.
+func AtomicCounter() string {
+	var n atomic.Int64
+	var wg sync.WaitGroup
+	for i := 0; i < 2; i++ {
+		wg.Add(1)
+		go func() {
+			defer wg.Done()
+			n.Add(1)
+		}()
+	}
+	seen := n.Load()
+	wg.Wait()
+	return fmt.Sprint(seen, n.Load())
 }
